@@ -112,6 +112,7 @@ SUMMARIES: dict[str, Summary] = {
     "builtins.dict": Summary(NONE, "dict(iterable of pairs from zip)"),
     "builtins.zip": Summary(NONE, "zip(...) lazily; strict=False never raises"),
     "builtins.enumerate": Summary(NONE, "total"),
+    "itertools.product": Summary(NONE, "cartesian product of iterables (tuples / sets / ranges of the package): never raises for iterable arguments"),
     "builtins.isinstance": Summary(NONE, "total"),
     "builtins.type": Summary(NONE, "total"),
     "builtins.next": Summary(["builtins.StopIteration"], "next(it) without default; with default total", ),
